@@ -100,7 +100,7 @@ def info(tier):
         "point x min/max x tol x 5 methods; linprog statuses 0-4); every OPTIMAL solution's constraints and bounds are "
         "re-evaluated by the reference interpreter; distinct = canonical (problem, method, options | stub script) hashes"
         % len(message_catalogue()),
-        "required_cells": ["A:feasible", "A:infeasible", "A:boundary", "A:lp-feasible", "A:lp-infeasible", "A:deep-constraint", "A:edit-then-resolve", "A:mixed-degree-vector", "A:view-order-constraint", "A:parametric-linear-after-set"]
+        "required_cells": ["A:feasible", "A:infeasible", "A:boundary", "A:lp-feasible", "A:lp-infeasible", "A:deep-constraint", "A:edit-then-resolve", "A:mixed-degree-vector", "A:view-order-constraint", "A:parametric-linear-after-set", "A:symmetric-matrix-reduction"]
         + [f"A:method:{m}" for m in sorted(set(NLP_METHODS + LP_METHODS))]
         + [f"B:point:{p}" for p in ("feasible", "violates-le", "violates-ge", "violates-eq", "violates-lb", "violates-ub")]
         + ["B:success:True", "B:success:False", "B:linprog"],
@@ -221,6 +221,30 @@ def view_order_problem(rng):
     return {"decls": decls, "objective": obj, "sense": "min", "constraints": [["rel", s, lhs, ["raw", rhs, "float"], "direct"]]}
 
 
+def symmetric_reduction_problem(rng):
+    """an NLP over a symmetric MatrixVariable whose binding constraint is a reduction of the whole matrix (sum, Frobenius norm, sum of
+    a block straddling the diagonal): every off-diagonal variable occupies two positions"""
+    S = ["mat", "S"]
+    decls = [{"k": "mat", "name": "S", "r": 3, "c": 3, "sym": True, "lb": -3.0, "ub": 5.0}]
+    tgt = {(0, 0): 1.5, (0, 1): 1.0, (0, 2): 0.75, (1, 1): 2.0, (1, 2): 1.25, (2, 2): 0.5}
+    obj = None
+    for (i, j), tv in tgt.items():
+        t = ["bin", "**", ["bin", "-", ["mel", S, i, j], ["raw", tv, "float"]], ["raw", 2, "int"]]
+        obj = t if obj is None else ["bin", "+", obj, t]
+    kind = rng.choice(["sum", "sum.T", "fro", "block-sum", "sum-ge"])
+    if kind == "sum":
+        con = ["rel", "<=", ["msum", S], ["raw", 6.0, "float"], "direct"]       # target sum = 4 + 2*3 = 10
+    elif kind == "sum.T":
+        con = ["rel", "<=", ["msum", ["T", S]], ["raw", 5.0, "float"], "direct"]
+    elif kind == "fro":
+        con = ["rel", "<=", ["fro", S], ["raw", 2.0, "float"], "direct"]         # target norm ~ 3.6
+    elif kind == "block-sum":
+        con = ["rel", "<=", ["msum", ["sub", S, 0, 2, 0, 3]], ["raw", 3.0, "float"], "direct"]
+    else:
+        con = ["rel", ">=", ["msum", S], ["raw", 16.0, "float"], "direct"]
+    return {"decls": decls, "objective": obj, "sense": "min", "constraints": [con]}
+
+
 def mixed_degree_problem(rng):
     """an otherwise linear model with one vector operand whose elements have different degrees (the non-linear one not last)"""
     n = 3
@@ -331,6 +355,11 @@ def workload_a(ctx, rec):
         k += 1
         which = k % 9
         lp = False
+        if which == 8 and n % 3 == 0:
+            prob = symmetric_reduction_problem(rng)
+            for m in ("auto", "SLSQP", "trust-constr"):
+                run_real(rec, rng, prob, "A:symmetric-matrix-reduction", m, {"maxiter": 300} if m == "trust-constr" else {})
+            continue
         if which == 8 and n % 2:
             for m in ("auto", "SLSQP", "trust-constr", "highs-ds"):
                 run_parametric_resolve(rec, rng, m)
